@@ -4,6 +4,7 @@ import (
 	"fmt"
 	"go/token"
 	"go/types"
+	"os"
 	"sort"
 	"strings"
 
@@ -1137,6 +1138,9 @@ func c17Caps(r *core.Run) {
 				}
 				nDiv++
 				div := c.Args[2]
+				if os.Getenv("SFW_DUMP") == "div" {
+					fn.WriteTo(os.Stderr)
+				}
 				ok1, n1, path := core.MustPass(fn, in.Block(), func(cond ssa.Value) (bool, bool) {
 					op, x, y, neg, ok := core.Compare(cond)
 					if !ok || neg || (op != token.EQL && op != token.NEQ) {
